@@ -832,7 +832,14 @@ func gmeDriverBody(variant int) func(s *vsched.Sched) *vsched.ExecOutcome {
 		// variant 5: two reconfigurations overlap (each adds the pool of e3), then Close
 		// variant 6: no reconfiguration; the pool of the preferred endpoint goes down and comes back at
 		// once: when everything has settled routing must be back on it (a monitor must not lose a flip)
-		targets := [][]int{{6}, {0}, {4, 1}, {}, {6}, {3}, {3}}[variant]
+		// variant 7: a unary call on the default MultiEndpoint stays in flight for the whole run (a slow
+		// server): a reconfiguration, other calls and the monitors must not wait for it
+		targets := [][]int{{6}, {0}, {4, 1}, {}, {6}, {3}, {3}, {6}}[variant]
+		if variant == 7 {
+			if cc := w.open["e1"]; cc != nil {
+				cc.HoldCalls = true
+			}
+		}
 		named := "r"
 		if variant == 4 {
 			named = "no-such-multiendpoint"
@@ -897,6 +904,9 @@ func gmeDriverBody(variant int) func(s *vsched.Sched) *vsched.ExecOutcome {
 			}),
 		}
 		names := []string{"rpcDefault", "rpcNamed", "updater", "env"}
+		if variant == 7 {
+			names[0] = "rpcInFlight" // parked in the pool of e1 on purpose
+		}
 		if variant == 5 {
 			ths = append(ths, s.Go("updater2", func() { w.gme.UpdateMultiEndpoints(menu[4].build(0, 0, w.dial)) }))
 			names = append(names, "updater2")
@@ -940,6 +950,9 @@ func gmeDriverBody(variant int) func(s *vsched.Sched) *vsched.ExecOutcome {
 			case th.PanicVal != nil:
 				add("C16", "C16.A2", fmt.Sprintf("panic in %s (thread %s)", th.PanicSite, names[i]), fmt.Sprintf("%v\n%s", th.PanicVal, trimStack(th.PanicStack)))
 				out = append(out, names[i]+":panic")
+			case !th.Done() && variant == 7 && strings.HasPrefix(names[i], "rpc") && th.Desc == "unary call in flight":
+				// routed to the pool whose server is slow: in flight, not stuck in the library
+				out = append(out, names[i]+":in-flight")
 			case !th.Done():
 				add("C16", "C16.A2", "thread "+names[i]+" blocked forever", th.Desc)
 				if strings.HasPrefix(names[i], "rpc") {
@@ -952,6 +965,13 @@ func gmeDriverBody(variant int) func(s *vsched.Sched) *vsched.ExecOutcome {
 		}
 		for _, t := range lateClosed {
 			add("C16", "C16.A2", "RPC started after the update returned reached a closed pool", t)
+		}
+		if variant == 7 {
+			// the server finally answers
+			for _, cc := range vgrpc.Dialed {
+				cc.HoldCalls = false
+			}
+			s.WaitQuiescent()
 		}
 		// monitors of closed pools must have terminated
 		open := 0
@@ -979,7 +999,7 @@ func runGMEDrivers(c *vsched.RunCtx, race bool) {
 	if c.Thorough() {
 		pre, delay = 2, 4
 	}
-	for v := 0; v < 7; v++ {
+	for v := 0; v < 8; v++ {
 		name := fmt.Sprintf("variant=%d", v)
 		if c.Replay != nil {
 			if c.Replay.Harness == "sched:gme-update" && c.Replay.Config == name {
